@@ -202,6 +202,8 @@ pub open spec fn elems_gds(gs: Seq<gds21::GdsElement>, es: Seq<Element>) -> bool
     }
 }
 pub open spec fn sref_gds(g: gds21::GdsStructRef, inst: Instance) -> bool {
+    // the reference names the target cell
+    &&& g.name@ == pointee(inst.cell).name@
     &&& fits32(inst.loc) &&& same_pt(g.xy, inst.loc)
     &&& (inst.reflect_vert || inst.angle is Some) == (g.strans is Some)
     &&& g.strans is Some ==> (g.strans->0.reflected == inst.reflect_vert && g.strans->0.angle == inst.angle && !g.strans->0.abs_mag && !g.strans->0.abs_angle && g.strans->0.mag is None)
@@ -403,10 +405,12 @@ pub open spec fn tdiv(a: int, b: int) -> int { if a >= 0 { a / b } else { -((-a)
 /// the GDSII layer number a layer key stands for
 pub uninterp spec fn knum(k: LayerKey) -> i16;
 /// R8: spec view of gds21::HasLayer (the element's GDSII layer number)
-pub trait VpHasLayer { spec fn gds_layer(&self) -> i16; }
-impl VpHasLayer for gds21::GdsBoundary { open spec fn gds_layer(&self) -> i16 { self.layer } }
-impl VpHasLayer for gds21::GdsPath { open spec fn gds_layer(&self) -> i16 { self.layer } }
-impl VpHasLayer for gds21::GdsBox { open spec fn gds_layer(&self) -> i16 { self.layer } }
+pub trait VpHasLayer { spec fn gds_layer(&self) -> i16; spec fn gds_xtype(&self) -> i16; }
+impl VpHasLayer for gds21::GdsBoundary { open spec fn gds_layer(&self) -> i16 { self.layer } open spec fn gds_xtype(&self) -> i16 { self.datatype } }
+impl VpHasLayer for gds21::GdsPath { open spec fn gds_layer(&self) -> i16 { self.layer } open spec fn gds_xtype(&self) -> i16 { self.datatype } }
+impl VpHasLayer for gds21::GdsBox { open spec fn gds_layer(&self) -> i16 { self.layer } open spec fn gds_xtype(&self) -> i16 { self.boxtype } }
+/// the GDSII data type a (layer key, purpose) pair stands for in the layer table
+pub uninterp spec fn pnum(k: LayerKey, p: LayerPurpose) -> i16;
 /// raw instance `i` is the import of structure reference `sref`: the named cell, the location, reflection about the x-axis and the angle
 pub open spec fn sref_imp(i: Instance, sref: gds21::GdsStructRef, m: CellMap) -> bool {
     &&& m.lookup(sref.name@) == Some(i.cell)
@@ -431,7 +435,7 @@ pub open spec fn aref_imp(v: Seq<Instance>, aref: gds21::GdsArrayRef, m: CellMap
 /// raw element `e` is the import of GDSII boundary `x`: a Rect exactly for the two axis-aligned closed 4-corner walks, else the polygon without its closing point; no net yet; on x's layer
 pub open spec fn boundary_imp(e: Element, x: gds21::GdsBoundary) -> bool {
     let n = x.xy@.len() as int;
-    &&& n >= 1 &&& x.xy@[0] == x.xy@[n - 1] &&& e.net is None &&& knum(e.layer) == x.layer
+    &&& n >= 1 &&& x.xy@[0] == x.xy@[n - 1] &&& e.net is None &&& knum(e.layer) == x.layer &&& pnum(e.layer, e.purpose) == x.datatype
     &&& match e.inner {
         Shape::Rect(rc) => n == 5 && same_pt(x.xy@[0], rc.p0) && same_pt(x.xy@[2], rc.p1) && rect_walk_g(x.xy@),
         Shape::Polygon(pg) => same_pts(x.xy@.take(n - 1), pg.points@) && !(n == 5 && rect_walk_g(x.xy@)),
@@ -439,10 +443,10 @@ pub open spec fn boundary_imp(e: Element, x: gds21::GdsBoundary) -> bool {
     }
 }
 pub open spec fn box_imp(e: Element, x: gds21::GdsBox) -> bool {
-    e.net is None && knum(e.layer) == x.layer && match e.inner { Shape::Rect(rc) => same_pt(x.xy@[0], rc.p0) && same_pt(x.xy@[2], rc.p1), _ => false }
+    e.net is None && knum(e.layer) == x.layer && pnum(e.layer, e.purpose) == x.boxtype && match e.inner { Shape::Rect(rc) => same_pt(x.xy@[0], rc.p0) && same_pt(x.xy@[2], rc.p1), _ => false }
 }
 pub open spec fn path_imp(e: Element, x: gds21::GdsPath) -> bool {
-    e.net is None && knum(e.layer) == x.layer && x.width is Some && match e.inner {
+    e.net is None && knum(e.layer) == x.layer && pnum(e.layer, e.purpose) == x.datatype && x.width is Some && match e.inner {
         Shape::Path(p) => same_pts(x.xy@, p.points@) && (x.width->0 >= 0 ==> p.width == x.width->0),
         _ => false }
 }
@@ -454,7 +458,7 @@ impl GdsImporter {
     /// GDSII layer number (`knum`; keys are never renumbered) — assumption, the shared layer table is outside the unit
     #[verifier::external_body]
     fn import_element_layer<E: VpHasLayer>(&mut self, elem: &E) -> (r: LayoutResult<(LayerKey, LayerPurpose)>)
-        ensures final(self).cell_map == old(self).cell_map, final(self).lib == old(self).lib, final(self).unsupported == old(self).unsupported, final(self).ctx == old(self).ctx, r is Ok ==> knum(r->Ok_0.0) == elem.gds_layer(),
+        ensures final(self).cell_map == old(self).cell_map, final(self).lib == old(self).lib, final(self).unsupported == old(self).unsupported, final(self).ctx == old(self).ctx, r is Ok ==> knum(r->Ok_0.0) == elem.gds_layer() && pnum(r->Ok_0.0, r->Ok_0.1) == elem.gds_xtype(),
     { unimplemented!() }
 //@ fn layout21raw/src/gds.rs :: impl GdsImporter :: fn import_point
 //@   ret r
